@@ -13,6 +13,8 @@ from . import core
 
 
 def _driver(prop):
+    if prop.upper().startswith("G"):       # growth checks (beyond the listed properties): ./check extra | ./check G01
+        return importlib.import_module("vt.growth.%s" % prop.lower())
     try:
         return importlib.import_module("vt.drivers.%s" % prop.lower())
     except ImportError as e:
@@ -57,6 +59,9 @@ def run_replay(path):
         core.assert_repo()
         mod = _driver(prop)
         still = mod.replay(ctx, rec)
+    except core.CannotReplay as e:
+        print("replay of %s: %s" % (path, e))
+        return 2
     finally:
         ctx.cleanup()
     if still:
@@ -98,6 +103,11 @@ def main(argv=None):
     if a.what == "selftest":
         from . import selftest
         return selftest.main(a)
+    if a.what == "extra":
+        rc = 0
+        for g in sorted(os.path.basename(p)[:-3].upper() for p in glob.glob(os.path.join(os.path.dirname(__file__), "growth", "g*.py"))):
+            rc = max(rc, run_check(g, a.tier, a.seed))
+        return rc
     if a.what == "benign":
         from . import benign
         return benign.main(a)
